@@ -268,6 +268,21 @@ fn shapes(quick: bool) -> Vec<Shape> {
         v.push(Shape::Cone { sec, seg, capped: true, rb: r, ra: r * 0.5 });
         if r < 1.0 { v.push(Shape::Torus { maj: sec.max(3), min: seg + 2, rmaj: 1.0, rmin: r }); }
     }}}
+    // a ladder of radii in 3 % steps from 0.3 to 10 (and every hundredth around 1): a radius is also the length of the
+    // profile normals the generators start from, so nothing may hinge on it being round, or far from 1
+    {
+        let mut ladder: Vec<f32> = (0..120).map(|k| 0.3 * 1.03f32.powi(k)).collect();
+        ladder.extend((90..=110).filter(|k| *k != 100).map(|k| k as f32 / 100.0));
+        for (i, &r) in ladder.iter().enumerate() {
+            let (sec, seg) = ([5u32, 8, 3][i % 3], [3u32, 2, 6][i / 3 % 3]);
+            v.push(Shape::Sphere { sec, seg, r });
+            v.push(Shape::Torus { maj: sec, min: seg + 2, rmaj: r * 3.0, rmin: r });
+            v.push(Shape::Torus { maj: sec, min: seg + 2, rmaj: 4.0, rmin: r.min(3.5) });
+            v.push(Shape::Capsule { sec, body: seg, cap: 3, r });
+            v.push(Shape::Cyl { sec, seg, capped: i % 2 == 0, r });
+            v.push(Shape::Cone { sec, seg, capped: true, rb: r, ra: r * 0.4 });
+        }
+    }
     // scale sentinels: counts around 255/256/257 and a dense sphere
     for sec in [100u32, 255, 256, 257] {
         v.push(Shape::Sphere { sec, seg: 3, r: 1.0 });
@@ -314,6 +329,6 @@ fn main() {
     });
     rep.set("shapes", all.len() as u64);
     rep.finish(&cfg, "exploration",
-        "every Platonic solid; boxes over a corner lattice; Sphere/Torus/Cylinder/Cone/Capsule for EVERY sector and segment count from the minimum up to the tier bound x radii lattice {0.5, 1, 3} x capped/uncapped (cones with zero apex or base radius); radii 1e-7 .. 1e4 on a thinned set of counts; Lathe profiles (non-unit profile normals) with full and partial azimuth ranges, built through Lathe::new and as struct literals; capped full-turn lathes starting at every multiple of 1/400 turn in -1..1; sector counts up to 2000 and every segment count up to 200. Per mesh: valid indices, unit normals, surface equation, vertex normals on the geometric-normal side of every non-degenerate face, one winding sense relative to the outside (outward), and after merging coincident vertices every directed edge exactly once with its reverse and V-E+F = 2 (torus 0) for closed solids / simple boundary rings of the expected size for open ones. non-trivial = mesh passed all applicable checks with >= 1 non-degenerate face.",
+        "every Platonic solid; boxes over a corner lattice; Sphere/Torus/Cylinder/Cone/Capsule for EVERY sector and segment count from the minimum up to the tier bound x radii lattice {0.5, 1, 3} x capped/uncapped (cones with zero apex or base radius); radii 1e-7 .. 1e4 and a 3 % ladder of 140 radii from 0.3 to 10 (every hundredth between 0.9 and 1.1) on a thinned set of counts; Lathe profiles (non-unit profile normals) with full and partial azimuth ranges, built through Lathe::new and as struct literals; capped full-turn lathes starting at every multiple of 1/400 turn in -1..1; sector counts up to 2000 and every segment count up to 200. Per mesh: valid indices, unit normals, surface equation, vertex normals on the geometric-normal side of every non-degenerate face, one winding sense relative to the outside (outward), and after merging coincident vertices every directed edge exactly once with its reverse and V-E+F = 2 (torus 0) for closed solids / simple boundary rings of the expected size for open ones. non-trivial = mesh passed all applicable checks with >= 1 non-degenerate face.",
         &["merge epsilon 1e-4 x mesh size; degenerate = merged corners or area <= 1e-6 size^2", "outside defined per shape family (centre / axis / tube centre); generic Lathe profiles are not judged for outward sense", "partial-azimuth lathes are judged as open shapes"]);
 }
